@@ -33,6 +33,13 @@ Record env := mkenv { e_am : addrmap; e_colls : list shape; e_fuel : nat }.
 
 Definition keydrop : prog := op_ OKeyUnlock.
 
+(* A function that received the key by value: the key is dropped by unwinding if [body] panics ([dp]),
+   and by an explicit drop(key) / end of scope when [body] completes ([dd]).  With a key that is only
+   lent (`&mut ThreadKey`) or handed back to the caller both are false. *)
+Definition with_key (dp dd : bool) (body : prog) : prog :=
+  Bind (Catch body (if dp then keydrop else skip))
+       (fun v => (if dd then keydrop else skip) ;; Ret v).
+
 Definition root_poison (s : shape) : option pid :=
   match s with SPoison p _ => Some p | _ => None end.
 
@@ -65,15 +72,19 @@ Definition closure (m : mode) (items : list gitem) (body : list csop) : prog :=
   op_ (OMark 1) ;; see_all (gpoisons items) ;; seqs (map (cs_prog m items) body).
 
 (* scoped_* : utils.rs:127-223, mutex.rs:232-283, rwlock.rs:253-347 (release after drop(key));
-   poisonable.rs:303-357, 490-544 (poison in the handler, release before drop(key)) *)
-Definition scoped_tail (m : mode) (s : shape) (a : alg) (lent : bool) (body : list csop) : prog :=
+   poisonable.rs:303-357, 490-544 (poison in the handler, release before drop(key)).
+   [acq] is the acquisition already wrapped as needed; the part under the key is what runs before drop(key). *)
+Definition scoped_rest (m : mode) (s : shape) (a : alg) (lent : bool) (body : list csop) (acq : prog) : prog :=
   let items := gitems s in
-  let kd := if lent then skip else keydrop in
+  let own := negb lent in
   match root_poison s with
   | None =>
-      Catch (Catch (closure m items body) (raw_unlock m a)) kd ;; kd ;; raw_unlock m a
+      Bind (with_key own own (acq ;; Catch (closure m items body) (raw_unlock m a)))
+           (fun _ => raw_unlock m a ;; Ret (VNat 0))
   | Some p =>
-      Catch (Catch (closure m items body) (op_ (OPoison p) ;; raw_unlock m a) ;; raw_unlock m a) kd ;; kd
+      Bind (with_key own own (acq ;; Catch (closure m items body) (op_ (OPoison p) ;; raw_unlock m a) ;;
+                              raw_unlock m a))
+           (fun _ => Ret (VNat 0))
   end.
 
 Definition fmt_leaf (k : lkind) (l : lock) : prog :=
@@ -113,29 +124,29 @@ Definition api_prog (e : env) (lc : tlocal) (o : apiop) : option prog :=
           let items := gitems s in
           match f with
           | FGuard =>
-              Some (Catch (raw_lock (e_fuel e) m a) keydrop ;; see_all (gpoisons items) ;; poison_result s)
+              Some (with_key true false (raw_lock (e_fuel e) m a ;; see_all (gpoisons items) ;; poison_result s))
           | FTry =>
-              Some (Bind (Catch (raw_try m a) keydrop)
-                         (fun v => if vtrue v then see_all (gpoisons items) ;; poison_result s
-                                   else Ret (VNat 1)))
+              Some (with_key true false
+                      (Bind (raw_try m a)
+                            (fun v => if vtrue v then see_all (gpoisons items) ;; poison_result s
+                                      else Ret (VNat 1))))
           | FScoped lent body =>
-              Some (Catch (raw_lock (e_fuel e) m a) (if lent then skip else keydrop) ;;
-                    scoped_tail m s a lent body ;; Ret (VNat 0))
+              Some (scoped_rest m s a lent body (raw_lock (e_fuel e) m a))
           | FScopedTry lent body =>
-              Some (Bind (Catch (raw_try m a) (if lent then skip else keydrop))
-                         (fun v => if vtrue v then scoped_tail m s a lent body ;; Ret (VNat 0)
+              Some (Bind (with_key (negb lent) false (raw_try m a))
+                         (fun v => if vtrue v then scoped_rest m s a lent body skip
                                    else Ret (VNat 1)))
           end
       | _, _ => None
       end
   | AGuardDrop =>
       match guard lc with
-      | Some g => Some (Catch (drop_items (g_mode g) false (g_items g)) keydrop ;; keydrop)
+      | Some g => Some (with_key true true (drop_items (g_mode g) false (g_items g)))
       | None => None
       end
   | AGuardUnlock =>
       match guard lc with
-      | Some g => Some (Catch (drop_items (g_mode g) false (g_items g)) keydrop)
+      | Some g => Some (with_key true false (drop_items (g_mode g) false (g_items g)))
       | None => None
       end
   | AGuardForget => match guard lc with Some _ => Some skip | None => None end
@@ -145,8 +156,8 @@ Definition api_prog (e : env) (lc : tlocal) (o : apiop) : option prog :=
       match guard lc with Some g => Some (cs_prog (g_mode g) (g_items g) (CWrite pos)) | None => None end
   | APanic =>
       match guard lc with
-      | Some g => Some (drop_items (g_mode g) true (g_items g) ;; keydrop ;; Throw)
-      | None => Some ((if haskey lc then keydrop else skip) ;; Throw)
+      | Some g => Some (Bind (with_key true true (drop_items (g_mode g) true (g_items g))) (fun _ => Throw))
+      | None => Some (Bind (with_key false (haskey lc) skip) (fun _ => Throw))
       end
   | AIsPoisoned c =>
       match coll e c with
